@@ -249,6 +249,12 @@ impl Sut {
 		self.note_appended(true);
 		Ok(())
 	}
+	fn refresh_sizes(&mut self) {
+		self.log_sizes.clear();
+		for (n, l) in self.log_files() {
+			self.log_sizes.insert(n, l);
+		}
+	}
 	/// Which log file grew since the last look: that is where the new record ends.
 	fn note_appended(&mut self, is_tx: bool) {
 		for (n, l) in self.log_files() {
@@ -282,6 +288,7 @@ impl Sut {
 			}
 		}
 		self.appended.clear();
+		self.refresh_sizes();
 		Ok(())
 	}
 	/// Model action `enactall`: enact every flushed record (one log file per call of the
@@ -305,6 +312,7 @@ impl Sut {
 		self.n_enacted += self.flushed;
 		self.logged -= self.flushed;
 		self.flushed = 0;
+		self.refresh_sizes();
 		Ok(())
 	}
 	pub fn clean(&mut self) -> Result<(), parity_db::Error> {
@@ -312,6 +320,7 @@ impl Sut {
 		if self.cfg.sync {
 			self.dirty = 0;
 		}
+		self.refresh_sizes();
 		Ok(())
 	}
 	pub fn reindex(&mut self) -> Result<(), parity_db::Error> {
@@ -549,6 +558,13 @@ pub fn run_case(
 			ok &= check_all(&sut, &oracle, &cfg, &keys, t, &vals, prop, ctr, true);
 		} else if a < 94 && p.allow_crash && crash_count < 3 {
 			crash_count += 1;
+			// make sure there often is an unsynced tail to cut
+			if rng.chance(1, 2) {
+				for _ in 0..rng.range(1, 3) {
+					let r = sut.process();
+					t.op("p1 process", &res(&r));
+				}
+			}
 			match crash_and_recover(&mut sut, &mut rng, root, seed, &prefix_states, &keys, t, &vals, prop, ctr) {
 				Some(m) => {
 					oracle = prefix_states[m].clone();
@@ -621,6 +637,43 @@ fn check_all(
 	for (c, ks) in keys.iter().enumerate() {
 		for k in ks {
 			ok &= check_get(sut, oracle, cfg, c as u8, k, t, vals, prop, ctr);
+		}
+	}
+	if _drained {
+		// value iteration over a drained hash column: exactly the live values with their counts
+		for (c, col) in cfg.cols.iter().enumerate() {
+			if col.btree {
+				continue
+			}
+			let mut seen: Vec<(Vec<u8>, u64)> = vec![];
+			let r = sut.db().iter_column_while(c as u8, |st| {
+				seen.push((st.value, st.rc as u64));
+				true
+			});
+			if let Err(e) = r {
+				t.oracle_fail(prop, &format!("iter_column_while failed: {:?}", e));
+				ok = false;
+				continue
+			}
+			let mut exp: Vec<(Vec<u8>, u64)> = oracle.cols[c]
+				.values()
+				.map(|(v, n)| (v.clone(), if col.kind == Kind::Rc { *n } else { seen.iter().find(|s| s.0 == *v).map(|s| s.1).unwrap_or(0) }))
+				.collect();
+			seen.sort();
+			exp.sort();
+			ctr.inc("op.iter_values");
+			if seen != exp {
+				t.oracle_fail(
+					prop,
+					&format!(
+						"value iteration col={}: expected {:?} observed {:?}",
+						c,
+						exp.iter().map(|(v, n)| format!("{}*{}", vals.render(v), n)).collect::<Vec<_>>(),
+						seen.iter().map(|(v, n)| format!("{}*{}", vals.render(v), n)).collect::<Vec<_>>()
+					),
+				);
+				ok = false;
+			}
 		}
 	}
 	ok
